@@ -224,11 +224,23 @@ func registerGoStubs(p *Program) {
 		"net/url.QueryEscape":                     "QueryEscape",
 		"net/url.PathEscape":                      "PathEscape",
 		"io.ReadAll":                              "IOReadAll",
+		"golang.org/x/crypto/bcrypt.GenerateFromPassword":   "BcryptGenerateFromPassword",
+		"golang.org/x/crypto/bcrypt.CompareHashAndPassword": "BcryptCompareHashAndPassword",
 		"io/ioutil.ReadAll":                       "IOReadAll",
 	}
 	for ext, name := range table {
 		if f := sp.Func(name); f != nil {
 			p.GoStub[ext] = f
+		}
+	}
+	summaries := map[string]string{
+		AuthbossMod + "/otp/twofactor/sms2fa.generateRandomCode":  "SummarySMSCode",
+		AuthbossMod + "/otp/twofactor.GenerateRecoveryCodes":      "SummaryRecoveryCodes",
+		AuthbossMod + "/otp.generateOTP":                          "SummaryGenerateOTP",
+	}
+	for ext, name := range summaries {
+		if f := sp.Func(name); f != nil {
+			p.Summary[ext] = f
 		}
 	}
 	// any function in stubs named Stub_<mangled> is also picked up:  Stub_path__Join -> path.Join
